@@ -26,9 +26,9 @@ T = {
     "T12S": "T12S durability in the World: File::sync_all / LogWriter::sync set `synced` of that one file to its current record count on Ok (and never beyond it on Err); append / flush never change `synced`; BufWriter::get_ref returns the file the writer was created on",
     "TBUF": "TBUF in unit log the position-tracking wrappers of bufio.rs are shims whose pos() is the logical offset; unit bufio VERIFIES the whole of src/storage/bitcask/bufio.rs (10 functions) against shim Read / Write / Seek traits with a ghost logical position (a call moves it by exactly the number of bytes reported; a failed read / write moves nothing, as std documents; positions stay below 2^63): pos() == logical position after new / read / write / flush / seek, no overflow. The link between the two units' shims is by reading; a Kani harness on the verbatim file (thorough tier, bounded) exercises the real std BufReader / BufWriter over a Cursor",
     "TLOG": "TLOG in unit store the World-level (record-level) contracts of the log.rs API (contracts/log.spec) are ASSUMED (R-stub-body); unit log verifies the bodies of log.rs against local byte-level contracts (contracts/log_local.spec): counter arithmetic, slice bounds after re-mapping, cache transparency, open flags, (pos,len) bookkeeping, flush before acknowledgement, end-of-file detection. The step from the byte level to the record level is machine-checked as pure lemmas in unit refine over an explicit abstraction (the records of a file are what decoding its bytes from the front yields): refine_append, refine_read, refine_next, refine_next_none, refine_copy. What remains by reading: that the hypotheses / conclusions of those lemmas are the clauses of the two spec files, and the durability / torn-tail part of the World (T12, T12S)",
-    "TARC": "R-arc: Arc<Context>/Arc<Mutex<Writer>>/Arc<ArrayQueue<Reader>> are read as single owners; that Writer, Readers and Handle share ONE Context (wired by the unverified Bitcask::open) is assumed. No interleaving is explored",
+    "TARC": "R-arc: Arc<Context>/Arc<Mutex<Writer>>/Arc<ArrayQueue<Reader>> are read as single owners; that Writer, Readers and Handle share ONE Context (wired by the unverified Bitcask::open) is assumed -- as a fact it is used in exactly one place, axiom_arc_shared_context (prelude/store_entry_views.rs), called in Handle::get. No interleaving is explored",
     "T13s": "T13 environment bounds assumed as World well-formedness: every file shorter than 2^62 bytes, fewer than 2^48 records per file, file ids below 2^62",
-    "TKV": "TKV the storage engine behind the KeyValueStorage trait is a map from byte strings to byte strings (prelude/cmd_prelude.rs): set / get / del that return Ok have exactly the map effect; for the Bitcask engine this is what C01 proves of Handle::{put,get,delete} (unit store), but `impl KeyValueStorage for Handle` (three one-line delegations) is linked by inspection, not by the verifier",
+    "TKV": "TKV unit cmd sees the storage engine through a shim of the KeyValueStorage trait whose contract says: set / get / del that return Ok have exactly the map effect on a ghost map (prelude/cmd_prelude.rs). Unit store states the SAME contract on the real trait declaration of src/storage.rs (contracts/storage.spec, labels C01.kv.*; the ghost map is kv_map(self, World)) and PROVES it for `impl KeyValueStorage for Handle` and, below it, for Handle::{put,get,delete} (C01.handle.*), whose map is model(key directory of the Handle's Writer, files). What remains trusted: that the two statements of the trait contract (one per unit, Bytes compared by content in both) say the same thing -- a textual correspondence of three postconditions -- and TARC",
     "TSPAWN": "TSPAWN rule R-outline: the closure handed to tokio::task::spawn_blocking is moved verbatim into a method of the same impl block and runs at the call site; awaiting the handle yields its value or a JoinError. Scheduling, cancellation and panics inside the closure are not modelled",
     "TSELECT": "TSELECT rule R-select: tokio::select! { p1 = f1 => e1, p2 = f2 => e2 } is read as `match <nondeterministic> { 0 => { let p1 = f1.await; e1 } _ => { let p2 = f2.await; e2 } }`; rule R-mut-self: `mut self` becomes a local initialised from self; rule R-tryfrom-call routes Command::try_from(frame) in server.rs through a VERIFIED forwarding wrapper (work-around for a crash of this Verus build); crate::shutdown::Shutdown is a shim (is_shutdown returns a ghost flag, recv returns with the flag set)",
     "TITER": "TITER std::vec::IntoIter (command::Parser) through vstd's IteratorSpec (remaining()); `\"DEL\" == bytes` compares the bytes (bytes: impl PartialEq<Bytes> for &str); std::str::from_utf8 succeeds exactly on utf8_ok input; UTF-8 encodes ASCII text as the same bytes (axiom_ascii_bytes / axiom_string_ascii)",
@@ -61,7 +61,7 @@ PROPS = {
         ],
     },
     "C06": {
-        "units": ["resp", "net", "cmd"], "label_prefixes": ["C06.", "C08.", "C07."], "level": "proof",
+        "units": ["resp", "net", "cmd", "store"], "label_prefixes": ["C06.", "C08.", "C07.", "C01.kv.", "C01.handle."], "level": "proof",
         "trusted": ["T1", "T2", "T3", "T4", "T4b", "T5", "T5b", "T6", "T7", "T13", "T13b", "T14", "TKV", "TSPAWN", "TSELECT", "TITER", "RW", "DERIVE"],
         "assumptions": [
             "what is proved, per request: (1) Command::try_from decodes a frame exactly as spec_command says (array of bulk strings, command name compared byte for byte, keys UTF-8, values arbitrary bytes, arity checked) -- C06.decode.*; (2) Get/Set/Del::apply on Ok have written exactly ONE frame, encode(reply(cmd, map before)), flushed it, left the unread input untouched and changed the map to effect(cmd, map before) -- C06.*.reply; DEL counts its keys in turn (del_fold) -- C06.del.count_in_turn; (3) read_frame decodes the first complete frame of the input regardless of how it is segmented and leaves the rest for the next call (C08.read_frame.*, unit net), so pipelined requests are seen one by one in order",
@@ -97,7 +97,7 @@ PROPS = {
         "units": ["store", "log", "bufio", "refine"], "label_prefixes": ["C01.", "C04.read.valid_location", "C04.copy.valid_location"], "level": "proof",
         "trusted": ["T1", "T4", "T8", "T11", "T12", "T13", "T13s", "TLOG", "TBUF", "TARC", "RW", "DERIVE"] + ["T9", "T10"],
         "assumptions": [
-            "step contracts are proved on Writer::{put,delete,merge,new_active_datafile} and Reader::get (the Handle methods only add the closed check and the lock / pool hand-off, T8); 'for every history' follows because every operation requires and re-establishes the same invariant (Index + WriterWf + StatsWeak) and states its effect on the whole map",
+            "step contracts are proved on Writer::{put,delete,merge,new_active_datafile} and Reader::get, and carried up through Handle::{put,delete,get,merge,sync} (C01.handle.*: the Mutex shim exposes the protected Writer as a view, R-interior reads the Handle's `&self` as `&mut self`) to `impl KeyValueStorage for Handle` (C01.kv.*, stated on the trait declaration of src/storage.rs); Handle::get relies on TARC in ONE named place (axiom_arc_shared_context: a pooled Reader shares the Writer's Context); 'for every history' follows because every operation requires and re-establishes the same invariant (Index + WriterWf + StatsWeak) and states its effect on the whole map",
             "Err results are C20's business; after a failed append the torn-tail finding (known_findings.txt) applies",
             "configurations: max_file_size is an unconstrained u64 in every contract; reader-cache size enters only through T9; concurrency only through T8",
         ],
